@@ -407,6 +407,53 @@ func constIdxStrip(s string) string { return constIdxAny.ReplaceAllString(s, "")
 // ---------------------------------------------------------------------------
 // V-GUARD
 
+// growRoot looks through phis and append calls: for a variable that starts as value R and is only ever reassigned
+// to append(itself, ...), it returns R (its length is >= len(R) everywhere). nil when v is not of that shape.
+func growRoot(v ssa.Value) ssa.Value {
+	if _, ok := v.(*ssa.Phi); !ok {
+		if c, ok := v.(*ssa.Call); !ok || !isBuiltinCall(c, "append") {
+			return nil
+		}
+	}
+	seen := map[ssa.Value]bool{}
+	var root ssa.Value
+	fail := false
+	var walk func(x ssa.Value)
+	walk = func(x ssa.Value) {
+		if fail || seen[x] {
+			return
+		}
+		seen[x] = true
+		switch y := x.(type) {
+		case *ssa.Phi:
+			for _, e := range y.Edges {
+				walk(e)
+			}
+		case *ssa.Call:
+			if isBuiltinCall(y, "append") && len(y.Call.Args) > 0 {
+				walk(y.Call.Args[0])
+				return
+			}
+			fail = true
+		default:
+			if root != nil && root != x {
+				fail = true
+			}
+			root = x
+		}
+	}
+	walk(v)
+	if fail {
+		return nil
+	}
+	return root
+}
+
+func isBuiltinCall(c *ssa.Call, name string) bool {
+	b, ok := c.Call.Value.(*ssa.Builtin)
+	return ok && b.Name() == name
+}
+
 type sliceUse struct {
 	ins   ssa.Instruction
 	base  ssa.Value
@@ -477,6 +524,10 @@ func (e *verifierEngine) guard(t *vTarget, fn *ssa.Function, res *vpassResult, r
 	for _, u := range uses {
 		if _, ok := u.base.Type().Underlying().(*types.Slice); !ok {
 			continue // arrays and pointers to arrays are type-fixed
+		}
+		// a slice that only grows by append (x = append(x, ...) in a loop) is at least as long as its root
+		if g := growRoot(u.base); g != nil {
+			u.base = g
 		}
 		d := normIdx(Desc(u.base))
 		if !pureParamPath.MatchString(d) {
